@@ -683,10 +683,16 @@ def invalid_call(nn, r):
         kw[arg] = value_of(expr)
     seqs = kw.pop('seqs')
     fn = getattr(nn, r['engine'])
+    pos = []
+    if r.get('spelling') == 'positional':
+        # the documented leading parameters by POSITION, the rest by keyword: an argument is validated however it is spelled (seeded change
+        # C10-r7m2: validation moved into a wrapper that looks at keyword arguments only)
+        for name in ('max_edits', 'max_returns', 'n_cpu', 'custom_distance', 'max_custom_distance', 'output_type'):
+            pos.append(kw.pop(name))
 
     def call():
         with contextlib.redirect_stderr(io.StringIO()):
-            return fn(seqs, **kw)
+            return fn(seqs, *pos, **kw)
     return call_impl(call)
 
 
@@ -700,7 +706,8 @@ def check_invalid(ctx, nn, r, family):
     if g[0] == 'ok':
         ctx.violation('property', '%s accepted the invalid argument%s %s%s and returned %s' %
                       (r['engine'], 's' if len(r['bad']) > 1 else '', ', '.join('%s=%s' % kv for kv in sorted(r['bad'].items())),
-                       (' (with the valid options %s)' % r['context']) if r.get('context') else '', str(g[1])[:100].replace('\n', ' ')),
+                       (' (with the valid options %s)' % r['context']) if r.get('context') else '' + (' [arguments by position]' if r.get('spelling') == 'positional' else ''),
+                       str(g[1])[:100].replace('\n', ' ')),
                       dict(r, family=family or 'invalid'), site='nn.%s[invalid:%s]' % (r['engine'], '+'.join(sorted(r['bad']))))
         return False
     return True
@@ -717,6 +724,9 @@ def invalid_cases(ctx, nn):
                     if arg == 'custom_distance' and mode_kw:
                         continue
                     check_invalid(ctx, nn, dict(engine=eng, bad={arg: v}, context=mode_kw), None)
+                    ninv += 1
+                if arg in GOOD and arg != 'seqs':
+                    check_invalid(ctx, nn, dict(engine=eng, bad={arg: v}, context={}, spelling='positional'), 'invalid_positional')
                     ninv += 1
         for v in ['[1, 2]', "['CAF', None]", '5']:
             if eng in ('symdel', 'nearest_neighbor'):
